@@ -63,6 +63,7 @@ FRAG = {
         'ent': 'a &amp; b &lt; c',
         'br': 'x<br> y',
         'h': '<h1> T <small>s</small> </h1>',
+        'styleattr': '<p style="color: red" class="k">s</p>',
         'tstmt': '{O} if  x {C}<p>y</p>{O}  end {C}',
         'tattr': '<a href="{O}= u {C}" class="k" title="{O}  t  {C}">t</a>',
         'tmix': 'a {O}  x  {C} b <b>{O}y{C}</b>',
@@ -177,6 +178,7 @@ def default_opts():
 
 
 _MC = []
+NOT_JUDGED = [0]
 
 
 def mc(ctx, module, cfg, **kw):
@@ -539,6 +541,7 @@ def validate(ctx, exe, cli, cases, tag):
             raise vlib.Infra('independent tokenizer rejects a generated input (%s): %r' % (e['lang'], e['in'][:200]))
     # a repository test input that the independent parser (or the minifier) does not accept is not a valid input: not judged
     skip = set(i for i, (c, e) in enumerate(zip(cases, evs)) if c.get('exp', {}).get('suite') and (e['tierr'] or e['err']))
+    NOT_JUDGED[0] += len(skip)
     lib_idx = [i for i, e in enumerate(evs) if e['mode'] == 'lib' and i not in skip]
     cli_idx = [i for i, e in enumerate(evs) if e['mode'] == 'cli']
     rejects, accepted = [], 0
@@ -686,7 +689,7 @@ def run(ctx):
         fragment_cases=n_frag, design_state_cases=n_design, cli_cases=n_cli, repository_test_input_cases=n_suite,
         distinct_nontrivial=len(tally.nontrivial),
         lines_per_active_option=tally.per_opt,
-        rejections=len(bad), rejections_reproduced=reproduced,
+        rejections=len(bad), rejections_reproduced=reproduced, repository_inputs_not_valid_not_judged=NOT_JUDGED[0],
         rule='a case is (language, option configuration, document) or (flag set, document); documents are '
              '(a) fragment sequences enumerated by TLC from spec/OptGen.tla (exhaustive to the bound, -simulate beyond) '
              'with a guarding construct for every active option, (b) for HTML also the symbol sequences of the design '
@@ -695,7 +698,8 @@ def run(ctx):
              '(language, options, flags, exact input); (c) the repository\'s own JS test inputs under 8 Version x KeepVarNames '
              'settings, judged on those two clauses. Generator exclusions (pinned as known findings, see '
              'known/C16.txt): JS `Math.pow(a,b)` calls, JS object properties whose key equals the value identifier '
-             '(`{name: name}`), CSS numbers written with an exponent while KeepCSS2 is on.',
+             '(`{name: name}`), CSS numbers written with an exponent while KeepCSS2 is on, HTML event handler attributes '
+             '(`onclick="..."`).',
         samples=tally.samples,
     ))
     ctx.assumptions += [
@@ -776,17 +780,6 @@ def selftest(ctx):
         if toks[i]['k'] != 'T' or toks[i]['b'] != [32]:
             raise vlib.Infra('selftest: unexpected token after marker')
         return toks[:i] + [dict(toks[i], **kw)] + toks[i + 1:]
-
-    def wsless(toks):
-        out, done = [], False
-        for t in toks:
-            if not done and t['k'] == 'T' and 32 in t['b'][1:-1] and t['b'] != [32]:
-                b = list(t['b'])
-                b.remove(32) if b[0] != 32 else b.pop(1 + b[1:].index(32))
-                t = dict(t, b=b)
-                done = True
-            out.append(t)
-        return out
 
     h, hs, x, jk, jp, cs, sv, js, cl = evs
     muts = [
